@@ -38,6 +38,33 @@ def _clamped(b: Value, BUF: Value):
     return None
 
 
+def _pending_bound(bound: Value, pa, BUF: Value):
+    """bound == self.<attr>.search(self.buffer).start() on a path where that search is not None  -> (attr, False)
+       bound == len(self.buffer) on a path where self.<attr>.search(self.buffer) is None          -> (attr, True)"""
+    def is_search(x):
+        return x[0] == "call" and x[1][0] == "attr" and x[1][2] == "search" and x[1][1][0] == "attr" and x[1][1][1] == ("param", "self") and x[2] == (BUF,)
+    if bound[0] == "call" and bound[1][0] == "attr" and bound[1][2] == "start" and is_search(bound[1][1]) and not bound[2]:
+        sc = bound[1][1]
+        if any(f == ("cmp", "Is", sc, NONE) and t is False for f, t in pa.facts) or any(f == ("cmp", "IsNot", sc, NONE) and t is True for f, t in pa.facts):
+            return sc[1][1][2], False
+        return None
+    if bound[0] == "call" and bound[1] == ("builtin", "len") and bound[2] == (BUF,):
+        cands = sorted(f[2][1][1][2] for f, t in pa.facts if f[0] == "cmp" and f[1] in ("Is", "IsNot") and f[3] == NONE and is_search(f[2]) and (t if f[1] == "Is" else not t))
+        if cands:
+            # several searches can be None on the path (the complete-delimiter search and the partial one): the partial one is
+            # the end-anchored pattern
+            from .mp_common import pending_idiom
+            known = pending_idiom(_PROGRAM[0]) if _PROGRAM else {}
+            for c in cands:
+                if c in known:
+                    return c, True
+            return cands[0], True
+    return None
+
+
+_PROGRAM: list = []
+
+
 def _lang_eq(rep: Report, rule: str, name: str, pat: bytes, ref: bytes, cons: str, loc: str, what: str) -> Optional[rx.DFA]:
     try:
         a, b_, st = rx.compare(pat, ref)
@@ -56,6 +83,7 @@ def _lang_eq(rep: Report, rule: str, name: str, pat: bytes, ref: bytes, cons: st
 
 
 def run(p: Program, rep: Report, tier: str) -> None:
+    _PROGRAM[:] = [p]
     rep.explanation = (
         "Round-trip equality over all contents x all chunkings quantifies over run-time bytes and is NOT decided. Decided "
         "necessary conditions: R1.1 provenance - everything derived from the boundary parameter passes re.escape before "
@@ -116,9 +144,20 @@ def run(p: Program, rep: Report, tier: str) -> None:
 
     # ---------------------------------------------------------------- R1.2
     folded: Dict[str, bytes] = {}
+    from .mp_common import pending_idiom as _pi
+    pending_attrs = set(_pi(p))
+    fenv = {"boundary": B}
+    for st_ in init.node.body:  # straight-line locals of __init__ (e.g. delimiter = b"--" + boundary)
+        if isinstance(st_, ast.Assign) and len(st_.targets) == 1 and isinstance(st_.targets[0], ast.Name):
+            try:
+                fenv[st_.targets[0].id] = F.fold(mp, st_.value, fenv)
+            except NotConst:
+                pass
     for attr, call in compiles.items():
+        if attr in pending_attrs:
+            continue  # the end-anchored partial-delimiter pattern is judged by R1.3 (automaton inclusion)
         try:
-            v = F.fold(mp, call.args[0], {"boundary": B})
+            v = F.fold(mp, call.args[0], fenv)
         except NotConst as e:
             rep.undecide("R1.2", f"self.{attr} pattern not foldable: {e}")
             continue
@@ -134,6 +173,8 @@ def run(p: Program, rep: Report, tier: str) -> None:
         for e in pa.events:
             if e.kind == "call" and e.a[0] == "attr" and e.a[2] == "search" and e.a[1][0] == "attr" and e.a[1][1] == ("param", "self"):
                 attr = e.a[1][2]
+                if attr in pending_attrs:
+                    continue
                 for f, t in pa.facts:
                     if t and f[0] == "cmp" and f[1] == "Eq" and f[2] == ("attr", ("param", "self"), "state") and f[3][0] == "attr":
                         use[attr] = f[3][2]
@@ -241,6 +282,23 @@ def run(p: Program, rep: Report, tier: str) -> None:
                                   "the hold-back clamp is applied although a complete '--boundary' is in the buffer: a delimiter waiting for its trailing line break can be longer than the clamp and would be emitted as data")
                 else:
                     rep.ok("R1.3", f"more_data=True (no boundary buffered): emitted and deleted up to max(last_newline(), len(buffer) - len(boundary) - {k})")
+                continue
+            pk = _pending_bound(emit_bound, pa, BUF)
+            if pk is not None and emit_bound == del_bound:
+                # hold back from the start of a trailing partial delimiter found by an end-anchored regex (or nothing if none)
+                from .mp_common import pending_idiom
+                proofs = pending_idiom(p)
+                attr, none_case = pk
+                pr = proofs.get(attr)
+                if pr is None:
+                    rep.undecide("R1.3", f"hold-back via self.{attr}.search(buffer): the pattern is not a foldable end-anchored regex")
+                elif not pr[0]:
+                    wtxt = rx.show(pr[1], True) if pr[1] is not None else "a match that does not start with a line break"
+                    rep.violation("R1.3", construct(ne, text=f"pending pattern self.{attr} misses a delimiter prefix"), where(ne, node),
+                                  f"the partial-delimiter pattern self.{attr} does not match {wtxt}, which is the beginning of a delimiter: when a chunk ends there, those bytes are emitted as part data")
+                else:
+                    rep.ok("R1.3", f"more_data=True: emitted and deleted up to {'len(buffer) (no partial delimiter pending)' if none_case else 'the start of the pending partial delimiter'}; "
+                                   f"self.{attr} matches every non-empty delimiter prefix (automaton inclusion)")
                 continue
             if emit_bound != del_bound:
                 rep.violation("R1.3", construct(ne, text=f"emit[:{show(emit_bound)[:40]}] / del[:{show(del_bound)[:40]}]"), where(ne, node),
